@@ -1360,12 +1360,14 @@ class Builder(object):
         )
 
     # GSUB 3
-    def add_alternate_subst(self, location, prefix, glyph, suffix, replacement):
+    def add_alternate_subst(
+        self, location, prefix, glyph, suffix, replacement, forceChain=False
+    ):
         if self.cur_feature_name_ == "aalt":
             alts = self.aalt_alternates_.setdefault(glyph, [])
             alts.extend(g for g in replacement if g not in alts)
             return
-        if prefix or suffix:
+        if prefix or suffix or forceChain:
             chain = self.get_lookup_(location, ChainContextSubstBuilder)
             lookup = chain.find_chainable_alternate_subst(glyph)
             if lookup is None:
